@@ -503,6 +503,75 @@ pub fn scheme<S: RefOps>(rec: &mut Rec, w: Width) {
     });
 }
 
+/// Multi-point batches: the library's `batch_check` against the conjunction of the reference relation
+/// over the point groups (in point-label order, polynomials in label order, one sponge threaded
+/// through), on the honest batch, on every claimed value replaced, and on every component of every
+/// proof in the list replaced.
+pub fn batch_scheme<S: RefOps>(rec: &mut Rec, max_size: usize) {
+    use std::collections::{BTreeMap, BTreeSet};
+    for_batch::<S>(rec, max_size, None, |rec, t| {
+        rec.dim("scheme", S::NAME);
+        let mut groups: BTreeMap<String, (S::Pt, BTreeSet<String>)> = BTreeMap::new();
+        for (pl, (ll, z)) in t.b.qs.iter() {
+            groups.entry(ll.clone()).or_insert_with(|| (z.clone(), BTreeSet::new())).1.insert(pl.clone());
+        }
+        if groups.len() < 2 {
+            return;
+        }
+        let list: Vec<Pf<S>> = t.b.proof.clone().into();
+        if list.len() != groups.len() {
+            return;
+        }
+        let comms: Vec<&LCm<S>> = t.c.comms.iter().collect();
+        let reference = |ev: &Evaluations<S::Pt, S::F>, proofs: &[Pf<S>]| -> bool {
+            let mut sp = sponge_pre::<S::F>(0);
+            let mut all = true;
+            for ((_, (z, labels)), pf) in groups.iter().zip(proofs.iter()) {
+                let cs: Vec<&LCm<S>> = labels.iter().map(|l| &t.c.comms[t.c.idx(l)]).collect();
+                let vs: Vec<S::F> = labels.iter().map(|l| ev[&(l.clone(), z.clone())]).collect();
+                let ok = catch(|| S::ref_check(&t.keys.vk, &cs, z, &vs, pf, &mut sp)).unwrap_or(false);
+                all &= ok;
+            }
+            all
+        };
+        let mut go = |rec: &mut Rec, op: &str, ev: &Evaluations<S::Pt, S::F>, proofs: &[Pf<S>]| {
+            let want = reference(ev, proofs);
+            let bp: BPf<S> = proofs.to_vec().into();
+            let got = check_batch::<S>(t.keys, &comms, &t.b.qs, ev, &bp, 0, rec.seed, 0);
+            rec.count_points(1);
+            rec.op(2);
+            let opc: String = op.chars().filter(|c| !c.is_ascii_digit()).collect();
+            rec.class(if want { "relation-holds" } else { "relation-fails" });
+            rec.class(&format!("lib-batch-{}", got.class()));
+            rec.obs(&format!("{}|batch|{}|{}|{}", S::NAME, opc, want, got.class()));
+            if got.accepted() != want {
+                let dir = if got.accepted() { "lib-accepts" } else { "lib-rejects" };
+                rec.violation(&format!("C10/{}/batch_check/{}/{}", S::NAME, opc, dir), &t.id, format!("{} ({} point groups): library -> {}, conjunction of the reference relation -> {}", op, groups.len(), got.short(), want));
+            }
+        };
+        go(rec, "honest", &t.b.evals, &list);
+        let keys_e: Vec<_> = t.b.evals.keys().cloned().collect();
+        for (i, k) in keys_e.iter().enumerate() {
+            for (n, f) in f_alpha(&t.b.evals[k], None, rec.seed) {
+                let mut ev = t.b.evals.clone();
+                ev.insert(k.clone(), f);
+                go(rec, &format!("value[{}]:={}", i, n), &ev, &list);
+            }
+        }
+        for i in 0..list.len() {
+            let other = &list[(i + 1) % list.len()];
+            for (n, m) in S::proof_mutations(&list[i], other, rec.seed) {
+                if n.starts_with("shape:") {
+                    continue;
+                }
+                let mut l2 = list.clone();
+                l2[i] = m;
+                go(rec, &format!("proof[{}].{}", i, n), &t.b.evals, &l2);
+            }
+        }
+    });
+}
+
 pub fn run(rec: &mut Rec) {
     let w = if rec.thorough() { Width::Medium } else { Width::Narrow };
     scheme::<SMar>(rec, w);
@@ -513,5 +582,10 @@ pub fn run(rec: &mut Rec) {
     scheme::<SLig>(rec, w);
     scheme::<SMll>(rec, w);
     scheme::<SBrk>(rec, w);
+    let bs = if rec.thorough() { 3 } else { 2 };
+    batch_scheme::<SMar>(rec, bs);
+    batch_scheme::<SSon>(rec, bs);
+    batch_scheme::<SIpa>(rec, bs);
+    batch_scheme::<SPst>(rec, bs);
     crate::special::c10_special(rec);
 }
